@@ -42,6 +42,9 @@ TYPES = [
          {"rust": "Remote", "name": "remote", "aliases": [], "fields": [],
           "nested": {"rust": "RemoteCmd", "variants": [{"rust": "Show", "name": "show", "aliases": [], "fields": []},
                                                        {"rust": "Prune", "name": "prune", "aliases": [], "fields": [fld("name", "req", long=False)]}]}}]}},
+    # a flattened struct behind a Box (the blanket `impl Args for Box<T>` forwards every method)
+    {"type": "BoxedFlat", "fields": [fld("dry", "bool", "d")],
+     "flatten": {"rust": "Inner", "boxed": True, "fields": [fld("must", "req"), fld("extra", "opt", "e"), fld("level", "counter", "l", long=False)]}, "subs": None},
 ]
 
 RUST_TY = {"bool": "bool", "counter": "u8", "req": "String", "opt": "Option<String>", "optopt": "Option<Option<String>>", "vec": "Vec<String>",
@@ -149,7 +152,7 @@ def gen_rust():
             o.append(attr(f))
             o.append("    pub %s: %s,\n" % (f["name"], RUST_TY[f["shape"]]))
         if t["flatten"]:
-            o.append("    #[command(flatten)]\n    pub common: %s,\n" % t["flatten"]["rust"])
+            o.append("    #[command(flatten)]\n    pub common: %s,\n" % (("Box<%s>" if t["flatten"].get("boxed") else "%s") % t["flatten"]["rust"]))
         if t["subs"]:
             o.append("    #[command(subcommand)]\n    pub cmd: %s,\n" % (("Option<%sCmd>" if t["subs"]["optional"] else "%sCmd") % t["type"]))
         o.append("}\n")
